@@ -233,7 +233,9 @@ def variants(P, seq):
     for tn in seq:
         r0, rm, rl = rows(tn); c0, cm, cl = cols(tn)
         per.append([_item(P, tn, rl, 'name', c0), _item(P, tn, r0, 'int', cl), _item(P, tn, rm, 'rev', cm),
-                    _item(P, tn, r0, 'name', cm), _item(P, tn, rl, 'rev', cl, upper=True)])
+                    _item(P, tn, r0, 'name', cm), _item(P, tn, rl, 'rev', cl, upper=True),
+                    # an integer-index item directly after a reversed name (no by-name item in between)
+                    _item(P, tn, rm, 'int', c0)])
     mixed = [x for grp in itertools.zip_longest(*per) for x in grp if x is not None]
     inv = _invalid_items(P)
     for k, bad in enumerate(inv): mixed.insert(min(len(mixed), 1 + 2 * k), bad)
@@ -723,7 +725,7 @@ def run(tier, seed, rep):
         'table selections: every single table and every ordered pair of the tables the file contains' +
         (', every ordered triple, and all tables in file order and reversed' if tier == 'thorough' else ''),
         'per ordered table list 4-7 selection variants: first row by name / first column (tuple form for single tables, and list form); last row by integer '
-        'index / last column / upper-case table letter; interior row by reversed name (connection tables) / middle column; a mixed list of 5 items per table '
+        'index / last column / upper-case table letter; interior row by reversed name (connection tables) / middle column; a mixed list of 6 items per table '
         '(rows out of order, the same row twice, name / index / reversed name) interleaved across the tables with invalid specifications in between; '
         'AUTOUGH2 files with SHORT output: rows of the short tables by name and by index together with a row that is not in the short table',
         'short = True and False for every variant of files with SHORT output (other files: short=False for one variant per table list)',
